@@ -419,6 +419,14 @@ pub fn long_strategy() -> impl Strategy<Value = String> {
         (1usize..400, list_strategy(6)).prop_map(|(n, l)| vec![list_text(&l); n].join(" , ")),
         (1usize..50_000).prop_map(|n| format!("AA:0.{}", "3".repeat(n))),
         (1usize..50_000).prop_map(|n| format!("{}AA", " ".repeat(n))),
+        // lengths around powers of two, in bytes, for tokens, weights and separators
+        (prop_oneof![Just(255usize), Just(256usize), Just(257usize), Just(1023usize), Just(1024usize), Just(1025usize), Just(4095usize), Just(4096usize), Just(4097usize), Just(65535usize), Just(65536usize), Just(65537usize)], 0u8..5).prop_map(|(n, kind)| match kind {
+            0 => format!("AA:0.{}", "5".repeat(n.saturating_sub(5))),
+            1 => "A".repeat(n),
+            2 => format!("{}KK", ",".repeat(n - 2)),
+            3 => vec!["AKs"; n / 4 + 1].join(",")[..n.min((n / 4 + 1) * 4 - 1)].to_string(),
+            _ => format!("{}\u{e9}", "2".repeat(n - 2)),
+        }),
     ]
 }
 
